@@ -1,11 +1,14 @@
 package c13
 
 import (
+	"context"
 	"encoding/json"
 	"fmt"
 	"math/rand/v2"
 	"sort"
 	"sync"
+	"sync/atomic"
+	"time"
 
 	"k8s.io/apimachinery/pkg/types"
 
@@ -41,11 +44,50 @@ type LaunchClaim struct {
 	Err     string         `json:"err,omitempty"`
 }
 
+// LaunchIn is a world scenario plus the pass's time budget: ExpireAfter > 0 makes the context of the scheduling pass report
+// DeadlineExceeded from its ExpireAfter-th Value() call on (a deterministic stand-in for the one-minute Solve timeout:
+// Provisioner.Schedule launches what has been scheduled so far).
+type LaunchIn struct {
+	*world.Scenario
+	ExpireAfter int `json:"expireAfter"`
+}
+
+// expiringCtx reports DeadlineExceeded (and closes Done) from its (limit+1)-th Value() call on; Provisioner.Schedule derives
+// its own timeout context from it, which observes the parent through Done().
+type expiringCtx struct {
+	context.Context
+	calls atomic.Int64
+	limit int64
+	done  chan struct{}
+	once  sync.Once
+	dead  atomic.Bool
+}
+
+func (c *expiringCtx) Value(k any) any {
+	if c.calls.Add(1) > c.limit {
+		c.dead.Store(true)
+		c.once.Do(func() { close(c.done) })
+	}
+	return c.Context.Value(k)
+}
+func (c *expiringCtx) Err() error {
+	if c.dead.Load() {
+		return context.DeadlineExceeded
+	}
+	return nil
+}
+func (c *expiringCtx) Done() <-chan struct{}       { return c.done }
+func (c *expiringCtx) Deadline() (time.Time, bool) { return time.Time{}, false }
+
 func implLaunch(raw json.RawMessage) (any, error) {
 	var s world.Scenario
 	if err := json.Unmarshal(raw, &s); err != nil {
 		return nil, err
 	}
+	var ext struct {
+		ExpireAfter int `json:"expireAfter"`
+	}
+	_ = json.Unmarshal(raw, &ext)
 	maxITMu.Lock()
 	defer maxITMu.Unlock()
 	if s.MaxInstanceTypes > 0 {
@@ -57,7 +99,13 @@ func implLaunch(raw json.RawMessage) (any, error) {
 	if err != nil {
 		return nil, err
 	}
-	res, err := w.Schedule()
+	var res provsched.Results
+	if ext.ExpireAfter > 0 {
+		w.Cluster.SetSynced(true)
+		res, err = w.Prov.Schedule(&expiringCtx{Context: w.Ctx, limit: int64(ext.ExpireAfter), done: make(chan struct{})})
+	} else {
+		res, err = w.Schedule()
+	}
 	if err != nil {
 		return map[string]any{"err": err.Error()}, nil
 	}
@@ -156,7 +204,12 @@ func genLaunch(r *rand.Rand, t core.Tier) any {
 			}
 		}
 	}
-	return s
+	in := LaunchIn{Scenario: s}
+	// a quarter of the passes run out of time after some pods have been placed
+	if r.Float64() < 0.25 {
+		in.ExpireAfter = 30 + r.IntN(600)
+	}
+	return in
 }
 
 func launchOp() *core.Op {
@@ -178,7 +231,11 @@ func launchOp() *core.Op {
 			json.Unmarshal(raw, &s)
 			m, _ := impl.(map[string]any)
 			c, _ := m["claims"].([]any)
-			l := []string{fmt.Sprintf("claims=%d", min(len(c), 4)), fmt.Sprintf("maxIT=%d", s.MaxInstanceTypes), fmt.Sprintf("bestEffort=%v", s.BestEffortMinVal), fmt.Sprintf("daemonsets=%d", len(s.DaemonSets))}
+			var ext struct {
+				ExpireAfter int `json:"expireAfter"`
+			}
+			json.Unmarshal(raw, &ext)
+			l := []string{fmt.Sprintf("claims=%d", min(len(c), 4)), fmt.Sprintf("expiring-context=%v", ext.ExpireAfter > 0), fmt.Sprintf("maxIT=%d", s.MaxInstanceTypes), fmt.Sprintf("bestEffort=%v", s.BestEffortMinVal), fmt.Sprintf("daemonsets=%d", len(s.DaemonSets))}
 			for _, p := range s.Pools {
 				for _, e := range p.Reqs {
 					if e.MinValues != nil {
